@@ -136,6 +136,20 @@ Example C07_compile_fuel_example :
   compile_fuel_ok src = true /\ exists bytes log, compile src = Ok (bytes, log).
 Proof. exact (conj compile_fuel_example compile_fuel_example_value). Qed.
 
+(* ---- the same WITH LOOPS: `compile_fuel_ok_loops src` (computable) asks, instead of the absence of loop tokens, that the loop
+        brackets of the token program are balanced at every level (LoopExecP.parse_toks answers a structured program) and that
+        the state-free step bound of that program (LoopParseP.scost: a loop costs 1 + max 1 count x (body + part after ':' + 2))
+        is below STEPS; still no macro call and no PLAY, nesting of Sub / tuplet blocks below S (length src) ---- *)
+Theorem C07_compile_fuel_loops : forall src : list Z, compile_fuel_ok_loops src = true -> compile src <> OutOfFuel.
+Proof. exact compile_fuel_loops. Qed.
+Theorem C07_exec_fuel_loops : forall (steps depth : nat) (toks : list tok) (s : song),
+  fuel_ok_loops depth steps toks = true -> s_break_flag s = 0 -> exec_f depth steps toks (Ok s) <> OutOfFuel.
+Proof. exact exec_f_loops_no_outoffuel. Qed.
+Example C07_compile_fuel_loops_example :
+  let src := zs "l8 [3 c d [2 e : f] : g] {c [2 d] e}4 Sub{[4 r]} 'ce'" in
+  compile_fuel_ok_loops src = true /\ exists bytes log, compile src = Ok (bytes, log).
+Proof. exact compile_fuel_loops_example. Qed.
+
 Print Assumptions C07_numerals_bounded.
 Print Assumptions C07_hex_numerals_bounded.
 Print Assumptions C07_saturation_is_cap.
@@ -155,3 +169,5 @@ Print Assumptions C07_exec_never_panics.
 Print Assumptions C07_compile_outcomes.
 Print Assumptions C07_compile_fuel_partial.
 Print Assumptions C07_exec_fuel_partial.
+Print Assumptions C07_compile_fuel_loops.
+Print Assumptions C07_exec_fuel_loops.
